@@ -108,6 +108,17 @@ def _check_one(case: dict):
     sig = "C20"
     try:
         mp = call("C20:construct", MazePlot, m, unit_length=ul)
+        if case.get("rejected_values"):
+            # the caller first offers cell values that cannot belong to this maze (another grid's); the offer is refused, the caller
+            # carries on. What the refusal looks like is the library's choice; the plot that follows shows what was accepted.
+            dr, dc = case["rejected_values"]
+            try:
+                mp.add_node_values(np.arange((g["r"] + dr) * (g["c"] + dc), dtype=float).reshape(g["r"] + dr, g["c"] + dc) / 7.0 - 1.0, hide_colorbar=True)
+                accepted = True
+            except Exception:  # noqa: BLE001
+                accepted = False
+            if accepted:
+                raise core.Discard()
         if values is not None:
             call("C20:add_node_values", mp.add_node_values, np.array(values, dtype=float), hide_colorbar=case.get("hide_colorbar", True))
         true_path = [tuple(q) for q in sol] if kind != "lattice" else None
@@ -140,7 +151,14 @@ def _check_one(case: dict):
                 for pp in rp.get("pred_paths", []):
                     call("C20:add_predicted_path", mp.add_predicted_path, [tuple(q) for q in pp])
                     preds.append([tuple(q) for q in pp])
-            call("C20:plot", mp.plot)
+            if case.get("own_axes") and rnd == 0:
+                # the caller hands over one of several axes of its own figure (not the one pyplot considers current)
+                fig, axs = plt.subplots(1, 3)
+                mine = axs[case["own_axes"] - 1]
+                call("C20:plot", mp.plot, fig_ax=(fig, mine))
+                require(mp.ax is mine, "C20:own-axes", "the plot was not drawn into the axes handed over")
+            else:
+                call("C20:plot", mp.plot)
             ax = mp.ax
             require(len(ax.images) >= 1, "C20:no-image", "nothing was drawn with imshow")
             _blocks_and_strips("C20", ax.images[0].get_array(), g, ul, values)
@@ -246,6 +264,10 @@ def _case(draw, hi):
     case["as_array"] = draw(st.booleans())
     if case["as_array"] and draw(st.booleans()):
         case["reuse_buffers"] = True
+    if draw(st.integers(0, 3)) == 0:
+        case["rejected_values"] = draw(st.sampled_from([[1, 1], [1, 0], [0, 1], [2, 2]]))
+    if draw(st.integers(0, 3)) == 0:
+        case["own_axes"] = draw(st.sampled_from([1, 2, 2, 3]))
     if draw(st.integers(0, 3)) == 0:
         rp = {}
         if draw(st.booleans()) and (case["kind"] != "lattice" or case.get("true_path") is not None):
